@@ -526,7 +526,13 @@ def binop(I, st, op, a, b, node=None):
                      (z3.And(bothnum, z3.Not(bothint), z3.Not(z3.And(a_ok, b_ok))), raised("OverflowError", "int too large to convert to float")),
                      # float result: the rounded exact sum/difference (exact when representable)
                      (z3.And(bothnum, z3.Not(bothint), a_ok, b_ok), SV(smt.mk_float(to_float(exact)))),
-                     (z3.Not(bothnum), raised("TypeError", "+/- on non-numbers"))]
+                     ]
+            if isinstance(op, ast.Add):
+                bothstr = z3.And(smt.kd(a2.t, K_STR), smt.kd(b2.t, K_STR))
+                cases.append((bothstr, SStr(z3.Concat(sval(a2.t), sval(b2.t)))))
+                cases.append((z3.And(z3.Not(bothnum), z3.Not(bothstr)), raised("TypeError", "+ on operands that are neither numbers nor strings")))
+            else:
+                cases.append((z3.Not(bothnum), raised("TypeError", "- on non-numbers")))
             return branch(ctx, st, cases)
     if isinstance(a, FractionV) and isinstance(b, FractionV) and isinstance(op, ast.Div):
         cases = [(b.t != 0, FractionV(a.t / b.t)), (b.t == 0, raised("ZeroDivisionError", "Fraction/"))]
